@@ -109,7 +109,7 @@ fn main() {
         "explain" => cmd_explain(&args[2..]),
         "list" => {
             for p in props::all() {
-                println!("{} {} quick={} thorough={}", p.id, p.title, p.quick_runs, p.thorough_runs);
+                println!("{} {} quick={} thorough={}", p.id, p.title, p.quick_runs, p.quick_runs * 6);
             }
         }
         _ => {
@@ -292,13 +292,15 @@ fn cmd_check(args: &[String]) {
         .unwrap_or(1);
     let runs: u64 = arg(args, "--runs")
         .and_then(|s| s.parse().ok())
-        .unwrap_or(if tier == "quick" { prop.quick_runs } else { prop.thorough_runs });
+        // thorough = the same generator and oracles over six times the quick tier's run indexes (0..6n contains the quick
+        // tier's 0..n), so a clean thorough run at a seed implies a clean quick run at that seed
+        .unwrap_or(if tier == "quick" { prop.quick_runs } else { prop.quick_runs * 6 });
     let workers: u64 = arg(args, "--workers")
         .and_then(|s| s.parse().ok())
         .unwrap_or_else(|| std::thread::available_parallelism().map(|n| n.get() as u64).unwrap_or(4).min(16));
     let deadline: f64 = arg(args, "--deadline-secs")
         .and_then(|s| s.parse().ok())
-        .unwrap_or(if tier == "quick" { 150.0 } else { 1200.0 });
+        .unwrap_or(if tier == "quick" { 150.0 } else { 900.0 });
     let known = load_known();
     let exe = std::env::current_exe().expect("current_exe");
     let t0 = Instant::now();
